@@ -229,7 +229,7 @@ func runC02(c *Ctx) {
 			okAll, nret := true, 0
 			for _, in := range instrsWhere(fn, isReturn) {
 				nret++
-				v := stripConvNum(in.(*ssa.Return).Results[0])
+				v := stripConvNum(unspill(in.(*ssa.Return), 0))
 				call, ok := v.(*ssa.Call)
 				if ok && isAtomicCall(call.Common(), "AddUint64") && call.Common().Args[0] == ssa.Value(fn.Params[1]) {
 					if n, isC := constInt(call.Common().Args[1]); isC && n >= 1 {
